@@ -311,6 +311,61 @@ def scale_inputs(tier):
     return out
 
 
+# JSON texts a metadata section may hold: every object of <= 3 pairs over
+# two keys (so keys repeat) and these values, at the top level, nested under
+# a key and nested inside a list; plus non-object documents
+JSON_ATOMS = [b'1', b'"x"', b'null', b'true', b'1.5', b'[]', b'{}', b'[1]',
+              b'{"a":1}', b'{"a":"x"}', b'-0', b'1e999', b'NaN',
+              b'"\\ud800"', b'"\\u0000"']
+JSON_DOCS = [b'[]', b'[1,"x"]', b'"x"', b'1', b'null', b'true', b'1.5',
+             b'NaN', b'-Infinity', b'', b' ', b'{} {}', b'{}x',
+             b'\xef\xbb\xbf{}', b'{"a":' + b'9' * 5000 + b'}',
+             b'{"a":1e' + b'9' * 5000 + b'}', b'{"\\ud800":1}',
+             b'{"a":"\xff"}', b'{"a":"\x01"}', b'{"a":1,}', b"{'a':1}",
+             b'{a:1}', b'{"a":1 /* c */}', b'{"a":01}', b'{"a":+1}',
+             b'{"a":.5}', b'{"a":"\\x"}', b'{"a":"\n"}', b'[[[[[[',
+             b'{"":{"":{"":1}}}', b'{"a":1}\x00']
+JSON_WHERE = ['.meta', '..meta', '...meta']
+
+
+def json_objects():
+    out = []
+    keys = [b'"a"', b'"b"']
+    for n in range(0, 4):
+        for ks in itertools.product(keys, repeat=n):
+            if n == 3 and len(set(ks)) == 2 and ks[0] != ks[2] and \
+                    ks[0] != ks[1] and ks[1] != ks[2]:
+                continue
+            for vs in itertools.product(JSON_ATOMS[:10] if n == 3
+                                        else JSON_ATOMS, repeat=n):
+                if n == 3 and ks[0] == ks[1] == ks[2] and \
+                        len(set(vs)) < 2:
+                    continue
+                out.append((n, b'{' + b','.join(k + b':' + v for k, v
+                                                in zip(ks, vs)) + b'}'))
+    return out
+
+
+def json_file(body, where, wrap):
+    if wrap == 'key':
+        body = b'{"k":' + body + b'}'
+    elif wrap == 'list':
+        body = b'{"k":[1,' + body + b']}'
+    body += b'\n'
+    hdr = b'#' + where.encode() + b': format=json, length=%d\n' % len(body)
+    parts = [b'#diffx: encoding=utf-8, version=1.0\n']
+    if where == '.meta':
+        parts += [hdr, body, b'#.change:\n#..file:\n#...meta: length=3\n'
+                  b'{}\n']
+    elif where == '..meta':
+        parts += [b'#.change:\n', hdr, body, b'#..file:\n#...meta: '
+                  b'length=3\n{}\n']
+    else:
+        parts += [b'#.change:\n#..file:\n', hdr, body,
+                  b'#...diff: length=2\na\n']
+    return b''.join(parts)
+
+
 def plan(tier):
     fs = base_files(tier)
     units = []
@@ -333,6 +388,10 @@ def plan(tier):
         units.append(('hdr-strings', a, L))
     units.append(('stream-kinds',))
     units.append(('attr-options',))
+    nj = len(json_objects())
+    for lo in range(0, nj, 1500):
+        units.append(('json-bodies', lo, min(lo + 1500, nj)))
+    units.append(('json-docs',))
     R = 6 if tier == 'quick' else 7
     for a in range(len(RAW)):
         for b in range(len(RAW)):
@@ -350,13 +409,20 @@ def plan(tier):
                 'boundary sizes (95..97, 191..193, 1000, 4095..4097, 65535..'
                 '65537, 10^6) of first lines, header lines, option values, '
                 'blank-line runs, content lines, JSON strings, section '
-                'counts, and JSON nesting depths 10..100000. Each input is '
+                'counts, and JSON nesting depths 10..100000; plus %d '
+                'metadata JSON objects (every object of <= 3 pairs over two '
+                'keys -- so keys repeat -- and 15 values of every JSON type '
+                'incl. -0, 1e999, NaN, lone-surrogate escapes) at the top '
+                'level / under a key / inside a list of a main, change or '
+                'file metadata section, and %d non-object or near-JSON '
+                'documents. Each input is '
                 'read by the real DiffXReader and loaded by DiffX.from_bytes '
                 '/ from_stream under a watchdog. Non-trivial: corrupted '
                 'file that gets past the main header.'
                 % (len(fs), len(BYTES),
                    '; every pair of token corruptions' if tier == 'thorough'
-                   else '', L, len(HDR_TOKENS), R, b''.join(RAW)),
+                   else '', L, len(HDR_TOKENS), R, b''.join(RAW),
+                   len(json_objects()), len(JSON_DOCS)),
         'bound': 'single corruptions%s; strings <= %d/%d'
                  % (' and token pairs' if tier == 'thorough' else '', L, R),
         'exhaustive': True,
@@ -666,6 +732,30 @@ def _run_unit_body(unit, tier, acc, one):
                      'label': label, 'size': len(d2)},
                 'scale input %s, %d bytes' % (label, len(d2)))
         acc.sample({'scale_inputs': sorted(set(l for l, d in sc))}, 1)
+    elif unit[0] == 'json-bodies':
+        objs = json_objects()[unit[1]:unit[2]]
+        for i, (npairs, body) in enumerate(objs):
+            # the placement rotates so that every body is seen somewhere and
+            # short ones (<= 2 pairs) everywhere
+            combos = [(w, x) for w in JSON_WHERE
+                      for x in ('top', 'key', 'list')]
+            if npairs > 2:
+                combos = [combos[(unit[1] + i) % len(combos)]]
+            for where, wrap in combos:
+                d2 = json_file(body, where, wrap)
+                one(d2, {'kind': 'data', 'data': to_jsonable(d2)},
+                    'metadata JSON %r in %s (%s)' % (body, where, wrap))
+        acc.sample({'json_bodies': [repr(b) for n, b in objs[:3]],
+                    'count': len(objs)}, 1)
+    elif unit[0] == 'json-docs':
+        for body in JSON_DOCS:
+            for where in JSON_WHERE:
+                for wrap in ('top', 'key', 'list'):
+                    d2 = json_file(body, where, wrap)
+                    one(d2, {'kind': 'data', 'data': to_jsonable(d2)},
+                        'metadata document %s in %s (%s)'
+                        % (_s(body), where, wrap))
+        acc.sample({'json_documents': len(JSON_DOCS)}, 1)
     elif unit[0] == 'lines':
         name, data = fs[unit[1]]
         for label, d2 in line_corruptions(data):
